@@ -15,12 +15,31 @@ invariant `InvOk` (0 <= modular_value < modulus).  In every structure the synthe
 `$size_in_*` / `$max_size_in_*` / `$min_size_in_*` are compared with the shape the model's
 `sizeExpr` assumes (`C05_size_bounds`), and an always-present field at a constant location
 must end within the annotated `$max_size_in_*` (model-free).  References to virtual fields
-are sent to the model as `(vref …)` nodes.
+are sent to the model as `(vref …)` nodes, `$present(f)` as `(present f cond)`; the model's
+typing discipline `tyOf` (hypothesis of `C05_no_crash`) must give every generated expression
+the type the real front end gave it (`TYOF`).
 
-Independent spec oracle (no model): every generated expression is evaluated over ℤ/Bool
-for enumerated (≤ 2^16 environments) or sampled leaf values; every aligned node's value
-must lie in γ(Python annotation); tightness of linear single-occurrence expressions is
-tested on corner environments.  This is also `search`.
+C++ types (arithmetic half of C04): `header_generator._cpp_integer_type_for_range` is compared
+with the model (`CPPTYPE`) on boundary ranges around ±2^31, ±2^32, ±2^63, 2^64 and on every
+range an annotation or an operation hull exhibited in the run.  For every module the front
+end accepts (testdata, corpus, edge enumeration, generated; the accepted `let`s of a partly
+rejected module are resubmitted on their own) the real header is generated and the template
+arguments `<IntermediateT, ResultT, ArgTs…>` of every Sum/Difference/Product/Maximum/Equal/…/
+Choice call found in the **header text** are compared with the model (`SIG` per node on the real
+annotations = `CppArith.nodeSig`; `SIGS` per generated expression = `CppArith.opSigs` on the
+model's own annotations): calls expected for the virtual fields ⊆ calls in the header ⊆ calls
+expected for all expressions of the module.
+
+Independent spec oracles (no model; also `search`): (1) every generated expression is
+evaluated over ℤ/Bool for enumerated (≤ 2^16 environments) or sampled leaf values; every
+aligned node's value must lie in γ(Python annotation); tightness of single-occurrence
+expressions and of `?:` with an independent two-valued condition is tested on corner
+environments; (2) "every run-time subexpression of an accepted module fits one 64-bit type
+together with its operands" is evaluated on the real annotations of every top-level
+expression in which `check_constraints` reported no 64-bit error (`gate_oracle`), over a
+deterministic enumeration of 64-bit-edge expressions (`edge_modules`) besides the random
+stream; (3) the C++ type chosen for a range must be the first of int32/uint32/int64/uint64
+holding it, and the header's template arguments must be those types (`spec_sig`).
 """
 import itertools
 import json
@@ -725,8 +744,9 @@ WIDTHS = [1, 2, 3, 4, 5, 7, 8, 9, 12, 13, 15, 16, 17, 24, 31, 32, 33, 48, 63, 64
 class Gen:
     """Type-directed random expressions over the leaves of one container."""
 
-    def __init__(self, r, leaves, bools, enums, lets, big):
+    def __init__(self, r, leaves, bools, enums, lets, big, presents=()):
         self.r, self.leaves, self.bools, self.enums, self.lets, self.big = r, leaves, bools, enums, lets, big
+        self.presents = list(presents)    # [(leaf, existence-condition ast)]
 
     def const(self):
         r = self.r
@@ -769,8 +789,12 @@ class Gen:
                 return ("t",) if r.random() < 0.5 else ("f",)
             if k < 0.6 and self.bools:
                 return ("bleaf", r.choice(self.bools))
+            if k < 0.75 and self.presents:
+                return ("present",) + r.choice(self.presents)
             return ("bin", r.choice(["eq", "ne", "lt", "le", "gt", "ge"]), self.int(0), self.int(0))
         k = r.random()
+        if k < 0.08 and self.presents:
+            return ("present",) + r.choice(self.presents)
         if k < 0.5:
             return ("bin", r.choice(["eq", "ne", "lt", "le", "gt", "ge"]), self.int(d - 1), self.int(d - 1))
         if k < 0.75:
@@ -804,6 +828,8 @@ def emb_text(a):
         return a[1][0]
     if k == "ref":
         return a[1][0]
+    if k == "present":
+        return "$present(%s)" % a[1][0]
     if k == "bin":
         return "(%s %s %s)" % (emb_text(a[2]), SEXP_OP[a[1]], emb_text(a[3]))
     if k == "choice":
@@ -839,6 +865,9 @@ def sexp(a):
         # a field_reference to an earlier virtual field: the model's `vref` constructor
         # (type copied from the definition, constant_value unknown, a leaf for the gate)
         return "(vref %s)" % sexp(a[1][1])
+    if k == "present":
+        # $present(field) with the field's existence condition: the model's `present` node
+        return "(present %s %s)" % (sexp(("leaf", a[1])), sexp(a[2]))
     if k == "bin":
         return "(%s %s %s)" % (SEXP_OP[a[1]], sexp(a[2]), sexp(a[3]))
     if k == "choice":
@@ -896,8 +925,31 @@ def gen_module(r, n_lets=6, depth=3, big=False, dynamic=False, widths=None):
         if r.random() < 0.5:
             lines.append("  0 [+7] En en")
             enums.append(("en", nid()))
+    presents = []
+    if not dynamic and r.random() < 0.45:
+        # conditional fields (`if c:`), for `$present(f)`; conditions are simple (no bound functions)
+        g0 = Gen(r, list(leaves), list(bools), [], [], False)
+        presents.append((r.choice([l for l in leaves if not l[0].startswith("p")]), ("t",)))
+        for i in range(r.randint(1, 2)):
+            k = r.random()
+            if k < 0.3 and bools:
+                cond = ("bleaf", r.choice(bools))
+            elif k < 0.8:
+                cond = ("bin", r.choice(["eq", "ne", "lt", "le", "gt", "ge"]),
+                        ("leaf", r.choice(leaves)), ("c", r.randint(0, 9)))
+            else:
+                cond = ("bin", r.choice(["and", "or"]),
+                        ("bin", r.choice(["lt", "ge"]), ("leaf", r.choice(leaves)), ("c", r.randint(0, 9))),
+                        ("bin", "ne", ("leaf", r.choice(leaves)), ("c", r.randint(0, 3))))
+            kind = r.choice(["uint", "sint"])
+            w = r.choice(widths or [1, 3, 8, 16, 32])
+            lines.append("  if %s:" % emb_text(cond))
+            lines.append("    0 [+%d] %s c%d" % (w, {"uint": "UInt", "sint": "Int"}[kind], i))
+            leaf = ("c%d" % i, kind, w, nid())
+            presents.append((leaf, cond))
+            leaves.append(leaf)
     lets = []
-    g = Gen(r, leaves, bools, enums, [], big)
+    g = Gen(r, leaves, bools, enums, [], big, presents)
     for i in range(n_lets):
         k = r.random()
         ast = g.int(depth) if k < 0.8 else g.bool(depth)
@@ -1005,6 +1057,8 @@ def py_eval(a, env, ann, out=None):
         v = t if c else f
     elif k == "max":
         v = max([py_eval(x, env, ann, out) for x in a[1]])
+    elif k == "present":
+        v = py_eval(a[2], env, ann)         # the field is present iff its existence condition holds
     elif k in ("ub", "lb"):
         e = ann.get(id(a))
         if e is None:
@@ -1042,6 +1096,8 @@ def collect_leaves(a, acc):
     k = a[0]
     if k in ("leaf", "bleaf", "eleaf"):
         acc[a[1][0]] = a
+    elif k == "present":
+        collect_leaves(a[2], acc)
     elif k == "ref":
         collect_leaves(a[1][1], acc)
     elif k == "bin":
@@ -1388,6 +1444,8 @@ def run_text(chk, r, batch, stats, text, lets, with_model, origin, oracle=True):
             stats["tree_queries"] = stats.get("tree_queries", 0) + 1
             if has_ref(ast):
                 stats["tree_queries_with_vref"] = stats.get("tree_queries_with_vref", 0) + 1
+            if "(present " in sexp(ast):
+                stats["tree_queries_with_present"] = stats.get("tree_queries_with_present", 0) + 1
             kinds = sorted(k for (_, k) in gk.get(line, []))
             want_gate = "ok" if not kinds else "err " + ",".join(kinds)
             batch.ask("TREE " + sexp(ast), "abs=%s cv=%s gate=%s" % (t, cv_of(root), want_gate),
@@ -1546,7 +1604,19 @@ def parse_lets(text):
         lid[0] += 1
         return lid[0]
     lets, env = [], {}
+    _PRESENTS.clear()
+    cur_if = None
     for ln, line in enumerate(text.split("\n"), 1):
+        m = re.match(r"(\s+)if (.*):\s*$", line)
+        if m:
+            try:
+                cond, rest = parse_expr(tokenize(m.group(2)), leaves, bools, enums, env)
+            except (IndexError, KeyError, ValueError, AssertionError):
+                return []
+            if rest:
+                return []
+            cur_if = (len(m.group(1)), cond)
+            continue
         m = re.match(r"\s*(?:bits|struct) \w+\((.*)\):", line)
         if m:
             for p in m.group(1).split(","):
@@ -1554,9 +1624,11 @@ def parse_lets(text):
                 if mm:
                     leaves[mm.group(1)] = (mm.group(1), {"UInt": "uint", "Int": "sint"}[mm.group(2)],
                                            int(mm.group(3)), nid())
-        m = re.match(r"\s+(\w+) \[\+(\w+)\] (UInt|Int|Bcd|Flag|En) (\w+)", line)
+        m = re.match(r"(\s+)(\w+) \[\+(\w+)\] (UInt|Int|Bcd|Flag|En) (\w+)", line)
         if m:
-            off, sz, ty, nm = m.groups()
+            ind, off, sz, ty, nm = m.groups()
+            if cur_if is not None and len(ind) <= cur_if[0]:
+                cur_if = None
             unit = 8 if "struct " in text and "bits " not in text else 1
             if ty == "Flag":
                 bools[nm] = (nm, nid())
@@ -1565,17 +1637,21 @@ def parse_lets(text):
             else:
                 size = int(sz) * unit if sz.isdigit() else None
                 leaves[nm] = (nm, {"UInt": "uint", "Int": "sint", "Bcd": "bcd"}[ty], size, nid())
+                _PRESENTS[nm] = (leaves[nm], cur_if[1] if cur_if is not None else ("t",))
         m = re.match(r"\s+let (\w+) = (.*)$", line)
         if m:
             try:
                 ast, rest = parse_expr(tokenize(m.group(2)), leaves, bools, enums, env)
-            except (IndexError, KeyError, ValueError):
+            except (IndexError, KeyError, ValueError, AssertionError):
                 return []
             if rest:
                 return []
             lets.append((m.group(1), ast, ln))
             env[m.group(1)] = ast
     return lets
+
+
+_PRESENTS = {}     # field name → (leaf, existence-condition ast), filled by parse_lets
 
 
 def tokenize(s):
@@ -1600,6 +1676,9 @@ def parse_expr(toks, leaves, bools, enums, env):
         b, rest = parse_expr(rest[1:], leaves, bools, enums, env)
         assert rest[0] == ")"
         return ("bin", name, a, b), rest[1:]
+    if t == "$present":
+        assert toks[1] == "(" and toks[3] == ")"
+        return ("present",) + _PRESENTS[toks[2]], toks[4:]
     if t in ("$max", "$upper_bound", "$lower_bound"):
         assert toks[1] == "("
         args, rest = [], toks[2:]
@@ -1660,6 +1739,10 @@ CORPUS = [
     HEAD + "bits Foo:\n  0 [+8] UInt a0\n  let v0 = ($upper_bound(3) == 3)\n",
     HEAD + "bits Foo:\n  0 [+8] UInt a0\n  let v0 = (($lower_bound((a0 + 1)) == 1) && ($upper_bound((a0 * 2)) == 510))\n",
     HEAD + "bits Foo:\n  0 [+8] UInt a0\n  let v0 = ($upper_bound(((false && (a0 == 1)) ? a0 : 3)) == 255)\n",
+    # $present: unconditional (constant-typed, constant_value unknown), conditional, inside && and ?:
+    HEAD + "bits Foo:\n  0 [+8] UInt a0\n  0 [+1] Flag fl\n  if (a0 > 3):\n    0 [+4] Int c0\n  if fl:\n    0 [+64] UInt c1\n"
+           "  let v0 = $present(a0)\n  let v1 = ($present(c0) && (c0 < 2))\n  let v2 = ($present(c1) ? c0 : (a0 + 1))\n"
+           "  let v3 = ($present(a0) == true)\n  let v4 = ($present(c0) || $present(c1))\n",
     # `?:` with an independent condition (C05_tight_choice_independent), nested conditions
     HEAD + "bits Foo:\n  0 [+8] UInt a0\n  0 [+8] UInt a1\n  0 [+4] Int a2\n  0 [+1] Flag fl\n"
            "  let v0 = (((a0 > 3) || fl) ? (a1 + 1) : (2 * a2))\n  let v1 = (fl ? (a0 * a1) : $max(a2, 3))\n"
@@ -1784,8 +1867,10 @@ def run(tier):
                        "queries + spec-oracle environments are counted separately in `stats`); "
                        "non-trivial = a generated `let` expression (distinct by text) or a crashing module")
     chk.trusted.append("Python oracle (harness/corr/C05.py: py_eval, in_gamma) for the model-free search")
-    chk.assumptions.append("virtual-field references and $present are represented in the model by the "
-                           "referenced expression; the copy is checked node-wise in Python")
+    chk.assumptions.append("references to virtual fields and $present(field) are the model constructors "
+                           "`vref e` / `present a c` carrying the referenced definition / existence "
+                           "condition; that the real annotation is a copy of that expression's is "
+                           "checked node-wise in Python on every such node")
     if tier == "thorough":
         EXHAUSTIVE_LIMIT[0], SAMPLES[0] = 2 ** 14, 1500
     model_ok = common.proof_gate(chk, search)
